@@ -1,4 +1,5 @@
 import CffiVerif.Proofs.CanaryB
+import CffiVerif.Generated.CanarySteps
 
 /-!
 C36 — callbacks from non-Python threads get a valid, persistent thread state (partial).
@@ -101,6 +102,41 @@ theorem thread_exit_never_fatal (s : State) (h : Reachable s) (t : Tid)
         | false => rfl
         | true => have := (hI.a6 j hz).2; simp [h2.2.1] at this
       simp [tlsDestructor, h2.2.2.1, hc, hnz]
+
+/-! ### Tie to the source: statement orders re-extracted from `misc_thread_common.h` on every run -/
+
+open CffiVerif.Generated.CanarySteps in
+/-- The statement orders of `thread_canary_free_zombies` (one loop iteration, compiled for the
+running interpreter), `thread_canary_register`, `thread_canary_make_zombie`,
+`cffi_thread_shutdown`, `gil_ensure` and `gil_release`, as extracted from the working tree, are the
+ones the model functions were written from. -/
+theorem steps_are_source :
+    freeZombiesIter = freeHeadModel ∧ freeZombiesLast = freeLastModel ∧
+    registerPath = registerModel ∧ makeZombieBody = makeZombieModel ∧
+    shutdownWithCanary = shutdownCanaryModel ∧ shutdownNoCanary = shutdownPlainModel ∧
+    gilEnsurePaths = gilEnsureModel ∧ gilReleaseBody = gilReleaseModel := by
+  decide
+
+open CffiVerif.Generated.CanarySteps in
+/-- The model's `freeHead` *is* the generated loop iteration, interpreted operation by operation
+(take the head, unlink it, `PyThreadState_Clear`, the 3.12 workaround, `PyThreadState_Delete`). -/
+theorem free_head_is_source_iteration (s : State) (h : s.zombies ≠ []) :
+    runIter freeZombiesIter s = freeHead s := by
+  cases hz : s.zombies with
+  | nil => exact absurd hz h
+  | cons i rest =>
+    simp [runIter, freeZombiesIter, iterOp, freeHead, hz]
+
+open CffiVerif.Generated.CanarySteps in
+/-- The `bound_gilstate = 0` workaround (needed from CPython 3.12 on: without it
+`PyThreadState_Delete` of a zombie makes the *current* thread lose its own thread state) is
+compiled in for the interpreter this check runs on, between `PyThreadState_Clear` and
+`PyThreadState_Delete`. -/
+theorem workaround_active_for_running_version :
+    (0x030C0000 ≤ runningVersion → workaroundGuard ≤ runningVersion ∧ workaroundGuard ≤ 0x030C0000 ∧
+      CanOp.clearBoundGilstate ∈ freeZombiesIter ∧
+      freeZombiesIter.dropWhile (· != .clearTs) = [.clearTs, .clearBoundGilstate, .deleteTs, .fallOffEnd]) := by
+  decide
 
 /-! ### Non-vacuity -/
 
